@@ -4,18 +4,14 @@ import CkcVerif.Model.Basic
 /-!
 # `src/hand_rank.rs`
 
-`determine_name` / `determine_class` are the regenerated run-length graphs over all 65,536 values.
+`determine_name` / `determine_class` are the regenerated graphs over all 65,536 values.
 A `HandRank` is the triple (value, name discriminant, class discriminant).
 -/
 namespace CK
 
-/-- value of a run-length encoded graph `[(start, disc), …]` (starts increasing) at `v` -/
-def runLookup : List (Nat × Nat) → Nat → Nat → Nat
-  | [], _, cur => cur
-  | (s, d) :: rest, v, cur => if s ≤ v then runLookup rest v d else cur
-
-def determineName (v : Nat) : Nat := runLookup Gen.nameRuns v Gen.nameInvalid
-def determineClass (v : Nat) : Nat := runLookup Gen.classRuns v Gen.classInvalid
+/-- `determine_name` / `determine_class`: the complete graphs over all 65,536 values -/
+def determineName (v : Nat) : Nat := if v < Gen.nameTailStart then get 8 Gen.nameGraphP v else Gen.nameTail
+def determineClass (v : Nat) : Nat := if v < Gen.classTailStart then get 16 Gen.classGraphP v else Gen.classTail
 
 structure HandRank where
   value : Nat
